@@ -24,7 +24,7 @@ type HistLine struct {
 // slot scheduler guarantees exclusive access.
 type transport struct {
 	sim     *Sim
-	ch      chan []byte
+	ch      chan inLine
 	rest    []byte
 	hist    []HistLine
 	partial []byte
@@ -36,16 +36,23 @@ type transport struct {
 	curIter int
 }
 
+// inLine is a command line with the instant at which the GUI offered it.
+type inLine struct {
+	b  []byte
+	at int64
+}
+
 func newTransport(sim *Sim) *transport {
-	return &transport{sim: sim, ch: make(chan []byte), hist: make([]HistLine, 0, 256)}
+	return &transport{sim: sim, ch: make(chan inLine), hist: make([]HistLine, 0, 256)}
 }
 
 // Read delivers one line per call, blocking (durably, inside the bubble)
 // until the GUI hands one over.
 func (tr *transport) Read(p []byte) (int, error) {
 	if len(tr.rest) == 0 {
-		b := <-tr.ch
-		if tr.sim.Now()%latticeStep != offGUI {
+		m := <-tr.ch
+		b := m.b
+		if tr.sim.Now() != m.at {
 			// the line had been waiting while the loop was busy (a command that
 			// blocks, e.g. go during a slow search set-up): the loop takes it
 			// over in an instant of its own, not in the instant of whichever
@@ -187,8 +194,14 @@ func firstEngineFrames(stack string) string {
 // Send hands a line to the protocol loop. It blocks until the loop
 // goroutine reads it. Returns false if the loop has ended (panic or quit).
 func (us *UciSession) Send(line string) bool {
+	at := us.Sim.Now()
 	select {
-	case us.tr.ch <- []byte(line + "\n"):
+	case us.tr.ch <- inLine{b: []byte(line + "\n"), at: at}:
+		if us.Sim.Now() != at {
+			// the loop was busy and takes the line over on its own lattice:
+			// the GUI resumes one lattice step after that instant
+			us.Sim.sleepUntil(us.Sim.ActorWake(offLoop, 1) + latticeStep - offLoop + offGUI)
+		}
 		return true
 	case msg := <-us.loopEnd:
 		// the loop ended before it could read the line
